@@ -1,0 +1,57 @@
+//go:build verif
+
+// Contracts for the integrity-checked read paths (property C09). See /verif/DESIGN.md.
+package store
+
+//@ func (*ImmuStore).fetchVLog
+//@   ensures nonnil: r1 == nil ==> r0 != nil
+//@   assigns internal
+
+//@ func (*ImmuStore).releaseVLog
+//@   assigns internal
+
+//@ func (*ImmuStore).readValueAt
+//@   ensures integrity: err == nil && !skipIntegrityCheck ==> n == len(b) && sha(b[0:n]) == hvalue
+
+//@ func (*ImmuStore).ReadValue
+//@   requires entry != nil ==> 0 <= entry.vLen && entry.vLen <= 1<<32
+//@   ensures hash: r1 == nil ==> sha(r0) == old(entry.hVal)
+
+//@ func (*valueRef).Resolve
+//@   requires v.st != nil && 0 <= v.valLen && v.valLen <= 1<<32
+//@   ensures hash: err == nil ==> sha(val) == old(v.hVal)
+
+// The accumulated hash of a header as a pure function of the header object (assumed read frame: the header's
+// own fields; its metadata bytes are reached through a map and are outside the model).
+//@ func (*TxHeader).Alh
+//@   pure
+//@   reads hdr
+
+//@ func (*ImmuStore).readTx
+//@   ensures hdr: r0 == nil ==> tx.header != nil
+//@   assigns internal, tx
+
+//@ func (*ImmuStore).wrapAppendableErr
+//@   ensures nonnil: r0 != nil
+//@   assigns nothing
+
+//@ func (*TxReader).Read
+//@   requires txr.st != nil && txr._tx != nil
+//@   ensures chain_asc: r1 == nil && old(txr.InitialTxID) != old(txr.CurrTxID) && !old(txr.Desc) ==> r0 != nil && r0.header != nil && old(txr.CurrAlh) == r0.header.PrevAlh
+//@   ensures chain_desc: r1 == nil && old(txr.InitialTxID) != old(txr.CurrTxID) && old(txr.Desc) ==> r0 != nil && r0.header != nil && old(txr.CurrAlh) == r0.header.Alh()
+
+// The trailing accumulated hash of a transaction record is compared with the hash recomputed from the parsed
+// header and the entry digests. (`alh` is the local array the stored hash is read into.)
+//@ func (*txDataReader).readHeader
+//@   requires t.r != nil
+//@   ensures hdr: r1 == nil ==> r0 != nil && t.h == r0 && 0 <= r0.NEntries && r0.NEntries <= maxEntries
+//@   assigns internal, t
+
+//@ func (*txDataReader).buildAndValidateHtree
+//@   requires t.r != nil && t.h != nil && htree != nil
+//@   ensures checked: r0 == nil && !old(t.skipIntegrityCheck) ==> t.h.Alh() == alh
+//@   assigns internal, t.h
+
+// (*Tx).readFrom is not under contract: its loop needs alias facts between the entry buffers, the digest slice and
+// the freshly parsed header that exceed the solver budget; its three steps (readHeader, readEntry,
+// buildAndValidateHtree) are verified separately.
